@@ -409,9 +409,14 @@ def outcome(spec, target):
         signal.signal(signal.SIGALRM, old)
     try:
         # S-rooted wildcards reach per-call scope internals: mask memory addresses
-        return ('ok', re.sub(r'0x[0-9a-fA-F]+', '0x?', repr(r)), r)
+        text = re.sub(r'0x[0-9a-fA-F]+', '0x?', repr(r))
     except Exception:
         return ('ok', '<unreprable>', r)
+    if 'ChainMap(' in text:
+        # a bare `S` argument evaluates to the scope of this very call (e.g. dict[S] is a generic alias
+        # holding it): two calls never give equal results — not comparable, never a violation
+        return None
+    return ('ok', text, r)
 
 
 def same_outcome(a, b, strict=True):
@@ -1298,6 +1303,13 @@ def variants(x):
         for y in smaller_args(x):
             yield y
     if isinstance(x, dict):
+        if 'seq' in x and x['seq'][0] in ('set', 'frozenset'):
+            return          # the elements of a set stay as they are (distinct, in printed order)
+        if 'dict' in x and is_arg(x):
+            for i, (k, v) in enumerate(x['dict']):      # … and so do the keys of a dict
+                for v2 in variants(v):
+                    yield {'dict': x['dict'][:i] + [[k, v2]] + x['dict'][i + 1:]}
+            return
         for k, v in x.items():
             if k == 'order':
                 continue
